@@ -105,6 +105,19 @@ CHECKS = {
                 "tier and complete in the thorough tier; bystanders are one TLS 1.2 GCM and one QUIC AES-GCM flow",
         "technique": "exhaustive single-fault enumeration at every position against a fault-free differential baseline",
     },
+    "C04": {
+        "category": "model_checking",
+        "text": "Context-bounded schedule exploration (CHESS-style) where a thread is one connection's packet list and the "
+                "scheduler is the capture order: for all pairs of {TLS1.2, TLS1.3, TLS1.0-CBC, QUIC-GCM, QUIC-ChaCha} under 5 "
+                "endpoint relations (and 5 connection-ID relations for QUIC pairs: distinct, zero-length, prefix) every "
+                "order-preserving merge with <=3 context switches (thorough <=5 and all merges for minimal pairs), triples and a "
+                "4-set with unrelated DNS/HTTP traffic, and key-log line permutations. Differential oracle: each flow's output "
+                "packets in the merged run equal those of the capture filtered to that connection.",
+        "design_ref": "DESIGN.md section 5, C04",
+        "note": "trusted: peer models, strict reader; schedules beyond the context-switch bound are not covered except for "
+                "minimal pairs in the thorough tier; connections use distinct 4-tuples",
+        "technique": "iterative context-bounded schedule enumeration with a differential (solo-run) oracle",
+    },
 }
 
 NOT_YET = "check not built yet in this round (planned: bounded exhaustive exploration, see DESIGN.md section 5)"
